@@ -394,12 +394,47 @@ class Engine:
         for g, t in self.entry.ghost.items():
             extra[g + '__pre'] = Num(t) if t.sort() != B else BoolV(t)
         extra['result'] = val
+        lemmas_from = set(self.c.get('ensures_as_lemmas', ()))
         for name, text in self.c.get('ensures', {}).items():
+            self._last_skolems = []
             t, facts = self.spec(text, st, extra, mode='prove')
             s2 = st.fork()
             for f in facts:
                 s2.assume(f)
+            hint = (self.c.get('hints') or {}).get(name)
+            self._clause_rounds = None
+            if hint and self._last_skolems and hasattr(self, 'hint_instances'):
+                # proof hints: the index terms the paper proof of this clause instantiates the quantified facts at, written as
+                # lambdas of the clause's Skolem variable; only consequences of assumed facts are added
+                sk = self._last_skolems[0]
+                terms = []
+                s3 = s2.fork()
+                s3.env.update(extra)
+                s3.env['_sk'] = Num(sk)
+                self._spec_mode = getattr(self, '_spec_mode', 0) + 1
+                try:
+                    for h in hint.get('terms', ()):
+                        v = self.ev(s3, ast.parse(h, mode='eval').body)
+                        if isinstance(v, Num):
+                            terms.append(v.t if v.is_int else z3.ToInt(v.t))
+                finally:
+                    self._spec_mode -= 1
+                for f in s3.path[len(s2.path):]:
+                    s2.assume(f)
+                s2.qfacts = list(s3.qfacts)
+                if '_fi_done' in s3.__dict__:
+                    s2._fi_done = set(s3._fi_done)
+                self.hint_instances(s2, terms)
+                self._clause_rounds = hint.get('inst_rounds')
             self.oblige(s2, 'ensures#%s' % name, t, kind='postcondition')
+            self._clause_rounds = None
+            if name in lemmas_from:
+                # a postcondition that has its own obligation may serve as a lemma for the clauses after it (in assume mode:
+                # its quantifiers become facts to instantiate)
+                t2, facts2 = self.spec(text, st, extra, mode='assume')
+                for f in facts2:
+                    st.assume(f)
+                st.assume(t2)
 
     def entry_names(self):
         """old(x) is spelled x__old in specs; parameters keep their entry values under that name."""
